@@ -197,6 +197,17 @@ func treeSize(m, L, ns int, scheme string, funcSep bool, capL int) (int, bool) {
 func genSmallWL(t *rapid.T, capL int, premise bool, pool []string) gen.WLSpec {
 	var w gen.WLSpec
 	w.Words = gen.WordList(t, gen.WordListOpts{Min: 1, Max: 7, Premise: premise, Pool: pool})
+	if pool == nil && rapid.IntRange(0, 3).Draw(t, "with_twin") == 0 {
+		// a word together with its title-cased twin (normalisation must fold them)
+		base := rapid.SampledFrom([]string{"polish", "été", "ice cream", "ñu", "don't", "ǆemal", "o'neil", "x_y"}).Draw(t, "twin_base")
+		if len(w.Words) > 5 {
+			w.Words = w.Words[:5]
+		}
+		w.Words = append(w.Words, base, oracle.Title(base))
+		if premise && !oracle.PremiseOK(oracle.Kept(w.Words)) {
+			w.Words = []string{base, oracle.Title(base)}
+		}
+	}
 	w.Scheme = rapid.SampledFrom(gen.Schemes).Draw(t, "scheme")
 	// separators without retries: constants, tiny presets, requirement-free recipes
 	switch rapid.IntRange(0, 5).Draw(t, "sepkind") {
